@@ -257,8 +257,8 @@ Fixpoint ser_prim (p : prim) : res bytes :=
       let fix entries (d : list (bytes * prim)) : res bytes :=
         match d with
         | [] => Ok []
-        | (k, v) :: t => do a <- ser_prim v; do r <- entries t;
-                         Ok (47 :: k ++ 32 :: a ++ 10 :: r)
+        | (k, v) :: t => do kk <- ser_name k; do a <- ser_prim v; do r <- entries t;
+                         Ok (kk ++ 32 :: a ++ 10 :: r)     (* serialize_name(key), " ", value, "\n" *)
         end in
       do r <- entries d; Ok (bs "<<" ++ 10 :: r ++ bs ">>" ++ [10])
   end.
@@ -274,7 +274,8 @@ Definition tda_prim (x : tda) : prim :=
   match x with TdaText s => PStr s | TdaSpacing f => pnum f end.
 
 (* one iteration of the `while ops.len() > 0` loop: the operands written (in order), the keyword,
-   the new current_point and [advance - 1] *)
+   the new current_point and [advance - 1].  Close, Rect and the path-painting operations reset current_point
+   (the `matches!` after the match): the loop does not know the current point after them *)
 Definition ser_head (cur : option point) (o : op) (rest : list op)
   : res (list prim * kwd * option point * nat) :=
   match o with
@@ -285,10 +286,10 @@ Definition ser_head (cur : option point) (o : op) (rest : list op)
   | OEndMarkedContent => Ok ([], KEMC, cur, O)
   | OClose =>
       match rest with
-      | OStroke :: _ => Ok ([], Ks, cur, 1%nat)
-      | OFillAndStroke NonZero :: _ => Ok ([], Kb, cur, 1%nat)
-      | OFillAndStroke EvenOdd :: _ => Ok ([], Kbstar, cur, 1%nat)
-      | _ => Ok ([], Kh, cur, O)
+      | OStroke :: _ => Ok ([], Ks, None, 1%nat)
+      | OFillAndStroke NonZero :: _ => Ok ([], Kb, None, 1%nat)
+      | OFillAndStroke EvenOdd :: _ => Ok ([], Kbstar, None, 1%nat)
+      | _ => Ok ([], Kh, None, O)
       end
   | OMoveTo p => Ok (num2 p, Km, Some p, O)
   | OLineTo p => Ok (num2 p, Kl, Some p, O)
@@ -297,13 +298,13 @@ Definition ser_head (cur : option point) (o : op) (rest : list op)
       then Ok (num2 c2 ++ num2 p, Kv, Some p, O)
       else if pt_eqb c2 p then Ok (num2 c1 ++ num2 p, Ky, Some p, O)
       else Ok (num2 c1 ++ num2 c2 ++ num2 p, Kc, Some p, O)
-  | ORect x y w h => Ok ([pnum x; pnum y; pnum w; pnum h], Kre, cur, O)
-  | OEndPath => Ok ([], Kn, cur, O)
-  | OStroke => Ok ([], KS, cur, O)
-  | OFillAndStroke NonZero => Ok ([], KB, cur, O)
-  | OFillAndStroke EvenOdd => Ok ([], KBstar, cur, O)
-  | OFill NonZero => Ok ([], Kf, cur, O)
-  | OFill EvenOdd => Ok ([], Kfstar, cur, O)
+  | ORect x y w h => Ok ([pnum x; pnum y; pnum w; pnum h], Kre, None, O)
+  | OEndPath => Ok ([], Kn, None, O)
+  | OStroke => Ok ([], KS, None, O)
+  | OFillAndStroke NonZero => Ok ([], KB, None, O)
+  | OFillAndStroke EvenOdd => Ok ([], KBstar, None, O)
+  | OFill NonZero => Ok ([], Kf, None, O)
+  | OFill EvenOdd => Ok ([], Kfstar, None, O)
   | OShade name => Ok ([PName name], Ksh, cur, O)
   | OClip NonZero => Ok ([], KW, cur, O)
   | OClip EvenOdd => Ok ([], KWstar, cur, O)
